@@ -16,7 +16,7 @@ RULE = ("generated transactions of the three kinds: every numeric field from {0,
         "sender recovery; a case is distinct by its document and key")
 TRUSTED = ["C06: Keccak-256, secp256k1, RFC 6979 are executable Gallina re-implementations (Prim/), opaque to the theorems",
            "C06: serde derive semantics of the three transaction structs (required/default/Option keys, unknown keys ignored) as "
-           "stated in Model/Tx.v", "C06: serde_json tokenisation outside the model (DESIGN 4.4)"]
+           "stated in Model/Tx.v", "C06: serde_json's reading of the bytes is modelled in Model/JsonText.v and compared on every run (clause json-text-vs-model); which double its floating-point reader returns is compared up to 2 ulp, not modelled (DESIGN 4.4)"]
 N = SECP_N
 
 
@@ -245,8 +245,15 @@ def run(ctx):
     seed = pyref.bip39_seed(phrase, "")
     tmp = tempfile.mkdtemp(prefix="c06-", dir=CACHE)
     runs, meta = [], []
-    for i in range(12 if not thorough else 60):
+    # (the last nine: contract creations and calls with long calldata — 24 KiB, 48 KiB, 48 KiB + 1, 70 000 bytes: any length is signed)
+    shaped = [(kind, n_, to_) for kind in range(3) for n_, to_ in ((24577, None), (49152, None), (49153, None))] + [(1, 70000, None), (2, 49153, b"\x11" * 20), (0, 131073, None)]
+    n_rand = 12 if not thorough else 60
+    for i in range(n_rand + len(shaped)):
         t = txgen.rand_tx(rng, kind=i % 3, small=(i % 2 == 0))
+        if i >= n_rand:
+            kind_, n_, to_ = shaped[i - n_rand]
+            t = txgen.rand_tx(rng, kind=kind_, small=True, chain=1)
+            t.f["data"], t.f["to"] = rbytes(rng, n_), to_
         if t.kind == 0 and t.f.get("chainId") is None:
             t.f["chainId"] = rng.choice([1, 5, 137, 1 << 40])
         d = txgen.render(rng, t)
